@@ -182,13 +182,49 @@ def disable_only_status(ctx):
                               'disable_attribute writes field %s of the attribute (line %d)' % (fld, st['ln']), 'write_status', fb.where(st['ln']))
         for c in fb.calls(r'HashMap::<[^>]*>::(insert|remove)$', r'Dict::<K, V>::(insert|remove|update_key)$'):
             ctx.bad(db, 'structural edit', 'disable_attribute also edits the dimension through %s (line %d)' % (c.name, c.ln), c.where())
-    ctx.floor(n, 2, 'status writes in disable_attribute')
+    ctx.floor(n, 1, 'status writes in disable_attribute')
+    disable_total(ctx)
     allowed = {'abe_policy::dimension::Attribute::new', '<abe_policy::dimension::Attribute as std::clone::Clone>::clone',
                'abe_policy::dimension::serialization::<impl cosmian_crypto_core::bytes_ser_de::Serializable for abe_policy::dimension::Attribute>::read'}
     for (b, ln, kind, op) in field_writers(F, ATTR, 'encryption_hint'):
         root = b.root or b.key
         ctx.check(root in allowed or 'serde' in b.key, root, 'writes Attribute.encryption_hint',
                   '%s changes the encryption hint of an existing attribute (line %d)' % (b.key, ln), 'constructor / deserialisation', b.where(ln))
+
+
+def disable_total(ctx):
+    """Both dimension kinds: no path of Dimension::disable_attribute reaches the exit without either writing the status
+    (directly or in a closure handed to a combinator on that path) or building the error for an unknown attribute."""
+    F = ctx.F
+    db = 'abe_policy::dimension::Dimension::disable_attribute'
+    rb = F.fn(db)
+
+    def writes_status(fb):
+        for b in fb.live_blocks():
+            for st in fb.stmts(b):
+                lhs = st['lhs']
+                if '*' in proj_names(lhs) and ATTR in (fb.local_ty(lhs['l']) or '') and field_path(lhs)[-1:] == ('write_status',):
+                    return True
+        return False
+    avoid = set()
+    for b in sorted(rb.live_blocks()):
+        for st in rb.stmts(b):
+            lhs, rv = st['lhs'], st['rv']
+            if '*' in proj_names(lhs) and ATTR in (rb.local_ty(lhs['l']) or '') and field_path(lhs)[-1:] == ('write_status',):
+                avoid.add(b)
+            if rv['k'] == 'agg' and rv.get('adt') == 'std::result::Result' and rv.get('variant') == 'Err':
+                avoid.add(b)
+        c = rb.call_at(b)
+        if c is not None:
+            if any(writes_status(cb) for (_i, cb, _rv) in lib.closure_args(F, c)):
+                avoid.add(b)
+            g = lib.local_callee(F, c)
+            if g is not None and g.key != db and any(writes_status(x) for x in F.family(g.key)):
+                avoid.add(b)
+    esc = [r for r in rb.return_blocks() if r in rb.reach(0, avoid_blocks=avoid)] if 0 not in avoid else []
+    ctx.check(not esc, db, 'every non-error path writes the status',
+              'disable_attribute can return without changing the status of the attribute and without reporting an unknown attribute '
+              '(one dimension kind left out?)', 'no path to the exit avoids both the status write and the Err construction', rb.where())
 
 
 @rule('C03', 'update-reconciles', configs=('default', 'p256'))
